@@ -91,7 +91,7 @@ def gen(t, prop, tier):
     if kernel == 'WendlandQuintic' and dim == 1:
         kernel = 'WendlandQuinticC2_1D'     # the 2-D/3-D class refuses dim 1
     narr = t.wchoice([(1, 3), (2, 4), (3, 2)])
-    L = t.choice([1.0, 2.0, 0.5])
+    L = t.choice([1.0, 1.0, 2.0, 2.0, 0.5, 0.5, 1e4])       # (1e4: data in a small length unit, tiny kernel weights)
     nper = {1: t.choice([6, 10, 20]), 2: t.choice([4, 5, 7]), 3: t.choice([3, 4])}[dim]
     dx = L / nper
     hfac = t.choice([1.0, 1.2, 1.5])
